@@ -329,6 +329,16 @@ def rule_degree(repo, tier):
                 tested = c.args[0]
             elif isinstance(c, ast.Compare) and tested is None:
                 tested = c.left
+        # rank agreement of the two operands of the comparison (ranks relative to the rank r of `mat`)
+        cmp_call = next((c for c in ast.walk(guard.test) if isinstance(c, ast.Call) and (dotted(c.func) or '').split('.')[-1] in ('allclose', 'isclose') and len(c.args) >= 2), None)
+        if cmp_call is not None:
+            ra, rb = _rank_off(cmp_call.args[0], f), _rank_off(cmp_call.args[1], f)
+            okr = ra is None or rb is None or ra == rb
+            res.inst({'function': f.fq, 'comparison': src(cmp_call)[:70], 'operand ranks relative to mat': [ra, rb], 'same rank': okr}, (f.fq, 'rank'))
+            if not okr:
+                res.add(Finding('C11.DEG', f, '%s: `%s` compares a tensor of rank r%+d with one of rank r%+d (r = rank of the input): the two are aligned from '
+                                'the right, so for two or more batch dimensions the batch axes are matched against each other shifted by one and a valid '
+                                'batch raises a size mismatch' % (q, src(cmp_call)[:60], ra, rb), node=guard, construct='rank|' + q))
         d = degree(tested, env) if tested is not None else None
         degs[q] = d
         res.inst({'function': f.fq, 'guard': src(guard.test)[:70], 'tested quantity': src(tested)[:40] if tested is not None else None, 'scale degree': d}, f.fq)
@@ -338,6 +348,71 @@ def rule_degree(repo, tier):
             res.add(Finding('C11.DEG', f, '%s: the rank guard compares `%s`, a quantity of degree %g in the scale, with the tolerance meant for the scale '
                             '(degree 1): valid scaled rotations with a small scale are rejected (or degenerate ones accepted)' % (q, src(tested)[:40], d), node=guard))
     return res
+
+
+def _rank_off(e, f, depth=0):
+    """rank of e minus the rank of the first parameter of f (None: unknown)"""
+    p0 = f.pos_params[0]
+    assigns = {}
+    for n in ast.walk(f.node):
+        if isinstance(n, ast.Assign) and len(n.targets) == 1 and isinstance(n.targets[0], ast.Name):
+            assigns.setdefault(n.targets[0].id, []).append(n.value)
+
+    def rk(e, depth=0):
+        if depth > 12:
+            return None
+        if isinstance(e, ast.Name):
+            if e.id == p0:
+                return 0
+            vs = assigns.get(e.id, [])
+            return rk(vs[0], depth + 1) if len(vs) == 1 else None
+        if isinstance(e, ast.Subscript):
+            b = rk(e.value, depth + 1)
+            if b is None:
+                return None
+            elts = e.slice.elts if isinstance(e.slice, ast.Tuple) else [e.slice]
+            drop = sum(1 for x in elts if not isinstance(x, ast.Slice) and not (isinstance(x, ast.Constant) and x.value is Ellipsis))
+            add = sum(1 for x in elts if isinstance(x, ast.Constant) and x.value is None)
+            return b - drop + add
+        if isinstance(e, ast.Call):
+            name = (dotted(e.func) or (e.func.attr if isinstance(e.func, ast.Attribute) else '')).split('.')[-1]
+            args = list(e.args)
+            if isinstance(e.func, ast.Attribute) and not (dotted(e.func) or '').startswith(('torch.', 'math.')):
+                args = [e.func.value] + args
+            if name == 'det' and args:
+                b = rk(args[0], depth + 1)
+                return None if b is None else b - 2
+            if name in ('pow', 'sqrt', 'abs', 'clone', 'exp', 'log', 'zeros_like', 'ones_like', 'to', 'float', 'double') and args:
+                return rk(args[0], depth + 1)
+            if name == 'unsqueeze' and args:
+                b = rk(args[0], depth + 1)
+                return None if b is None else b + 1
+            if name == 'squeeze' and len(args) >= 2:
+                b = rk(args[0], depth + 1)
+                return None if b is None else b - 1
+            if name in ('zeros', 'ones', 'empty', 'full') and e.args:
+                # zeros(shape[:-k]) -> rank r - k
+                a0 = e.args[0]
+                if isinstance(a0, ast.Subscript) and isinstance(a0.slice, ast.Slice) and a0.slice.lower is None and a0.slice.upper is not None:
+                    try:
+                        up = ast.literal_eval(a0.slice.upper)
+                    except ValueError:
+                        return None
+                    base = a0.value
+                    is_shape = (isinstance(base, ast.Attribute) and base.attr == 'shape' and dotted(base.value) == p0) or \
+                        (isinstance(base, ast.Name) and any(isinstance(v, ast.Attribute) and v.attr == 'shape' and dotted(v.value) == p0 for v in assigns.get(base.id, [])))
+                    if is_shape and isinstance(up, int) and up < 0:
+                        return up
+            return None
+        if isinstance(e, ast.BinOp):
+            a, b = rk(e.left, depth + 1), rk(e.right, depth + 1)
+            if a is None:
+                return b
+            if b is None:
+                return a
+            return max(a, b)
+        return None
+    return rk(e)
 
 
 ANGLE_FUNCS = {'asin', 'arcsin', 'acos', 'arccos', 'atan', 'arctan', 'atan2', 'arctan2'}
